@@ -52,17 +52,17 @@ CHECKS = {
                 note="Real TCP inside interactive sessions covers liveness, state invariance, the key rule end to end, POST == bind and the loopback bind; a stalled-terminal scenario (the session's tmux server is stopped while redraws and GETs arrive) decides 'no request can wedge fzf' as bounded progress after the terminal resumes.",
                 ref="4/C16"),
     "C17": dict(engine="E-pkg/E-proc",
-                technique="runtime monitor: totality (panic capture), structural equalities over parsed Options (override, commutation of unrelated options, concatenation of the three sources, malformed sources rejected), bind round-trip against generated specifications; process-level exit status",
+                technique="runtime monitor: totality (panic capture), structural equalities over parsed Options (override incl. colour schemes, parse-state canaries re-parsed between cases, commutation of unrelated options, concatenation of the three sources, malformed sources rejected), bind round-trip against generated specifications; process-level exit status",
                 text="Argument vectors from the full option vocabulary x a value pool parse without panics; the binary exits 0/1 or 2 with a message; later occurrences override earlier ones structurally; file < env < argv including positional (--height/--tmux) precedence, and the three sources together equal the same words on one command line; unrelated options commute; generated --bind specifications (multi-key pairs, + append prefix, bare put) round-trip with byte-identical arguments in every delimiter form.",
                 note="Expected expansion of an action name is its parse in isolation; punctuation keys alone.",
                 ref="4/C17"),
     "C01": dict(engine="E-lib/E-proc",
-                technique="runtime monitor: reference-model comparison (independent evaluator of the documented query grammar) over emitted sets of the real filter, library mode and process level",
+                technique="runtime monitor: reference-model comparison (independent evaluator of the documented query grammar) over emitted sets of the real filter, library mode and process level, and over query sequences served by one real Matcher with its pattern and chunk caches",
                 text="Every generated (list, query, options) triple is run through the real fzf (fzf.Run in library mode; the built binary over stdin for a share) and the emitted multiset is compared with the lines accepted by a reference evaluator written from the documentation. Interactive match lists are compared with the same reference through the C08 driver.",
                 note="Trusted: the reference evaluator (refq, ~250 lines, shares only the accent table with fzf) and the well-formedness rules of generated queries.",
                 ref="4/C01"),
     "C04": dict(engine="E-lib/E-proc",
-                technique="runtime monitor: permutation check + metamorphic sub-list/pair order consistency + semantic tiebreak monitor on unambiguous workloads + access-pattern monitor on the real lazily merged list (index probes vs sequential read vs single-threaded sort)",
+                technique="runtime monitor: permutation check + metamorphic sub-list/pair order consistency + semantic tiebreak monitor on unambiguous workloads + access-pattern monitor on the real lazily merged list (toggle-sort twin matcher over the shared chunk cache; index probes vs sequential read vs single-threaded sort)",
                 text="Filter output is checked to be a permutation of the reference matches; relative order of adjacent pairs and random sub-lists must equal their order when filtered alone (global sort == partitioned sort + merge) over 0..60000 lines, --tail, 1/2/16 CPUs; on single-occurrence exact-term workloads the order must follow score then the documented tiebreak criteria.",
                 note="'end' and 'pathname' are only decided where the documentation is unambiguous.",
                 ref="4/C04"),
@@ -72,7 +72,7 @@ CHECKS = {
                 note="Item ordinals are observed as the index field of GET / in the live-stream phase. Only read results an *os.File can produce are generated.",
                 ref="4/C06"),
     "C10": dict(engine="E-pkg",
-                technique="runtime monitor: partition-law and reference-selector oracles over Tokenize/Transform/with-nth renderer; reference evaluator per selected field for --nth",
+                technique="runtime monitor: partition-law and reference-selector oracles over Tokenize/Transform/with-nth renderer; reference evaluator per selected field for --nth; process-level output comparison for --accept-nth (with --ansi / --with-nth)",
                 text="Partition law and recorded offsets for three delimiter kinds, every range expression with bounds -6..6 against a reference selector, --nth matching against the reference evaluator applied per field with offsets/positions checked against the full line.",
                 note="Queries for the --nth oracle avoid delimiter characters; the last selected field is searched without its trailing delimiter (documented).",
                 ref="4/C10"),
@@ -82,9 +82,9 @@ CHECKS = {
                 note="F19 (empty SGR parameter skipped) and F20 (OSC-8 close with bare ESC) are listed known findings with witness classifiers.",
                 ref="4/C11"),
     "C18": dict(engine="E-pkg",
-                technique="runtime monitor: reference model of the history (entries, cursor, per-entry overlay) compared step by step with the real History and the file bytes",
+                technique="runtime monitor: reference model of the history (entries, cursor, per-entry overlay) compared step by step with the real History and the file bytes, and with the prompt and file of interactive sessions (POSTed actions, raw ctrl-p/ctrl-n, eight endings)",
                 text="Random multi-session histories over the real History API in the order the terminal uses it; returned strings after every navigation step and file bytes after every session are compared with the model.",
-                note="API level; accept/abort exit paths are driven by the interactive engine.",
+                note="API level for volume; prompt after every step and file after every ending (accept, Enter, become, print-query, accept-or-print-query; abort, ctrl-c, refused accept-non-empty) are driven by the interactive engine.",
                 ref="4/C18"),
     "C19": dict(engine="E-pkg",
                 technique="runtime monitor: reference walk over os.ReadDir compared with the paths pushed by the real walker on generated trees; unprivileged worker for unreadable directories",
